@@ -65,8 +65,8 @@ def judge(pid, cfg, trace, tag, stats, source):
     return 0
 
 
-def generate_sim(tier, d, seed_off=0):
-    n, depth = (300, 10) if tier == "quick" else (4000, 12)
+def generate_sim(tier, d, seed_off=0, n_thorough=4000):
+    n, depth = (300, 10) if tier == "quick" else (n_thorough, 12)
     sim = tlc("ServerGen", "ServerGenSim.cfg", workers=1, timeout=1500, tag=f"{PID}sim",
               simulate=(f"num={n}", depth + 1), extra=["-seed", str(SEED + seed_off)])
     behs = behaviours_from(sim)
@@ -80,7 +80,7 @@ def generate_sim(tier, d, seed_off=0):
     return p, behs
 
 
-def run_common(pid, cfg, tier, long_ids, queries, slices, model_invariants):
+def run_common(pid, cfg, tier, long_ids, queries, slices, model_invariants, n_thorough=4000):
     t0 = time.time()
     d = outdir(pid)
     build_harness()
@@ -93,11 +93,11 @@ def run_common(pid, cfg, tier, long_ids, queries, slices, model_invariants):
     fails = 0
     samples = []
     # 2. [BR] TLC-simulated histories on the real server
-    ops_sim, behs = generate_sim(tier, d)
+    ops_sim, behs = generate_sim(tier, d, n_thorough=n_thorough)
     samples.append({"tlc_history": behs[0][:4]})
     # 3. [TV] seeded random histories over free-form texts
     ops_rand = os.path.join(d, "ops-rand.ndjson")
-    n, ln = (300, 10) if tier == "quick" else (4000, 14)
+    n, ln = (300, 10) if tier == "quick" else (n_thorough, 14)
     vh(["server-gen", "--seed", SEED, "--n", n, "--len", ln, "--out", ops_rand] + (["--long"] if long_ids else []))
     rand_first = json.loads(open(ops_rand).readline())
     samples.append({"random_history": rand_first[:3]})
